@@ -315,6 +315,25 @@ fn check_case(c: &Case, vals: &[Option<MVal>], vals2: &[Option<MVal>]) -> Stats 
                     });
                 }
             }
+            // the same document as a serde_yaml mapping and as a serde_json map (the adapters decide
+            // which numeric kind the solver sees: u64 -> UInt, i64 -> Int, f64 -> Float)
+            let ym = crate::mdoc::to_yaml_map(&d);
+            let jm = crate::mdoc::to_json_map(&d);
+            let mut reps: Vec<(&'static str, i8)> = vec![("serde_yaml", eng::val3(&rule, &ym).unwrap_or(2))];
+            if let Some(jm) = &jm {
+                reps.push(("serde_json", eng::val3(&rule, jm).unwrap_or(2)));
+            }
+            for (name, rv) in reps {
+                st.transitions += 1;
+                st.evaluations += 1;
+                if bit(rv) & exp == 0 {
+                    st.push_violation(Violation {
+                        signature: format!("{} on {} document: engine {} reference {}", c.form, name, if rv == 2 { "PANIC" } else { eng::v3name(rv) }, refint::set_name(exp)),
+                        witness: format!("engine {} on the {} rendering, reference {} ; rule {} doc {}", eng::v3name(rv), name, refint::set_name(exp), one_line(&c.yaml), d.show()),
+                        replay: json!({"kind":"reference","rule_yaml":c.yaml,"document":crate::report::mobj_to_json(&d),"reference":refint::set_name(exp),"representation":name}),
+                    });
+                }
+            }
             if bit(v) & exp == 0 || m != Ok(v == 1) {
                 let cls = if c.two_fields {
                     format!("{}/{}", field_class(fv.as_ref()), field_class(gv.as_ref()))
